@@ -1015,8 +1015,8 @@ def gen_cli(rng) -> dict:
         for a in CLI_BY:
             vals = [v for v in VALUES[a] if isinstance(v, str) and v != ""]
             k = rng.random()
-            sd[a] = [] if k < 0.6 else rng.sample(vals, 1) if k < 0.85 else rng.sample(vals, 2) if k < 0.97 else [vals[0], vals[0]]
-            if a == "method" and rng.random() < 0.05:
+            sd[a] = [] if k < 0.65 else rng.sample(vals, 1) if k < 0.9 else rng.sample(vals, 2) if k < 0.99 else [vals[0], vals[0]]
+            if a == "method" and rng.random() < 0.03:
                 sd[a] = ["get", "GET"]
             sd[a + "_regex"] = list(rng.choice(REGEXES[a])) if rng.random() < 0.15 else None
         if rng.random() < 0.2:
